@@ -5,28 +5,32 @@ C29 — OSM data maps to features by fixed rules.
 
 About the model `B6/Model/Osm.lean` of `ingest/osm.go` + `ingest/features.go` (`ingest es` = every feature
 the OSM feature source emits for the elements `es`, in order). The model mirrors the code after
-`fixes/C29-relation-member-area-id.patch`.
+`fixes/C29-relation-member-area-id.patch` and `fixes/C29-reserved-geometry-keys.patch`.
 
 `osm_rules` is the element-by-element statement of the property; `member_id_rule` is the clause the
 unrepaired code broke (`member_id_before_fix_counterexample`); `key_mapping` is the searchable-key table.
-`path_geometry_partial` / `way_point_key_counterexample` belong to the finding `way-with-point-key`
-(an OSM tag keyed `point` on an open way collides with b6's geometry tag).
+`geometry_tags` / `reserved_key_before_fix_counterexample` belong to the second fix
+(`fixes/C29-reserved-geometry-keys.patch`: an OSM tag keyed `point` on an open way used to collide with b6's
+geometry tag and the way was dropped from the world).
 -/
 namespace B6.Props.C29
 open B6.Model.Pbf (Element Tag Member MType Fail)
 open B6.Model.Osm B6.Lemmas.Osm
 
-/-- Searchable tag keys: the 17 `hashKeys` get a `#` prefix, the 3 `atKeys` an `@` prefix, every other
-key is kept as it is. -/
+/-- Searchable tag keys: the 17 `hashKeys` get a `#` prefix, the 3 `atKeys` an `@` prefix, the two keys
+reserved for geometry (`point`, `path`) an `osm:` prefix, every other key is kept as it is; no OSM key ends
+up on a geometry key. -/
 theorem key_mapping (k : String) :
-    keyForOSMKey k = if k ∈ hashKeys then "#" ++ k else if k ∈ atKeys then "@" ++ k else k :=
-  keyForOSMKey_spec k
+    (keyForOSMKey k = if k ∈ hashKeys then "#" ++ k else if k ∈ atKeys then "@" ++ k
+      else if k = "point" ∨ k = "path" then "osm:" ++ k else k) ∧
+    keyForOSMKey k ≠ "point" ∧ keyForOSMKey k ≠ "path" :=
+  ⟨keyForOSMKey_spec k, keyForOSMKey_not_reserved k⟩
 
 /-- The rules, element by element, for every input and every pair of ID sets:
 * a node gives exactly one feature, the point `pointID id`, whose `point` tag is the node's location and
-  which carries every OSM tag (key mapped) except one whose mapped key is `point`;
+  which carries every OSM tag (key mapped);
 * an open way gives exactly one feature, the path `pathID id` whose `path` tag lists its nodes' points in
-  order, carrying every OSM tag (key mapped) except one whose mapped key is `path`;
+  order, carrying every OSM tag (key mapped);
 * a closed way gives exactly that path with *no* other tag, and the area `wayAreaID id` with the way's tags
   (keys mapped) and the single polygon `[pathID id]`;
 * a multipolygon relation gives nothing when one of its way members is not a closed way of the input, and
@@ -37,10 +41,10 @@ theorem key_mapping (k : String) :
 theorem osm_rules (s : Sets) :
     (∀ id lat lon tags, ∃ f, featuresOf s (.node id lat lon tags) = [f] ∧ f.id = pointID id ∧
         f.tags.find? (fun t => t.key = "point") = some ⟨"point", .point lat lon⟩ ∧
-        ∀ t ∈ tags, keyForOSMKey t.key ≠ "point" → ⟨keyForOSMKey t.key, .str t.value⟩ ∈ f.tags) ∧
+        ∀ t ∈ tags, ⟨keyForOSMKey t.key, .str t.value⟩ ∈ f.tags) ∧
     (∀ id nodes tags, wayClosed? nodes = some false → ∃ f, featuresOf s (.way id nodes tags) = [f] ∧ f.id = pathID id ∧
         f.tags.find? (fun t => t.key = "path") = some ⟨"path", .ids (nodes.map pointID)⟩ ∧
-        ∀ t ∈ tags, keyForOSMKey t.key ≠ "path" → ⟨keyForOSMKey t.key, .str t.value⟩ ∈ f.tags) ∧
+        ∀ t ∈ tags, ⟨keyForOSMKey t.key, .str t.value⟩ ∈ f.tags) ∧
     (∀ id nodes tags, wayClosed? nodes = some true → featuresOf s (.way id nodes tags) =
         [.generic (pathID id) [⟨"path", .ids (nodes.map pointID)⟩], .area (wayAreaID id) (mapTags tags) [[pathID id]]]) ∧
     (∀ id members tags, isRelationArea tags = true →
@@ -54,14 +58,14 @@ theorem osm_rules (s : Sets) :
   refine ⟨?_, ?_, ?_, ?_, ?_⟩
   · intro id lat lon tags
     refine ⟨_, rfl, rfl, modifyOrAdd_find _ _ _, ?_⟩
-    intro t ht hk
-    exact modifyOrAdd_keeps _ _ _ _ (List.mem_map.mpr ⟨t, ht, rfl⟩) hk
+    intro t ht
+    exact modifyOrAdd_keeps _ _ _ _ (List.mem_map.mpr ⟨t, ht, rfl⟩) (keyForOSMKey_not_reserved t.key).1
   · intro id nodes tags hc
     refine ⟨.generic (pathID id) (modifyOrAdd "path" (.ids (nodes.map pointID)) (mapTags tags)), ?_, rfl,
       modifyOrAdd_find _ _ _, ?_⟩
     · simp [featuresOf, hc]
-    · intro t ht hk
-      exact modifyOrAdd_keeps _ _ _ _ (List.mem_map.mpr ⟨t, ht, rfl⟩) hk
+    · intro t ht
+      exact modifyOrAdd_keeps _ _ _ _ (List.mem_map.mpr ⟨t, ht, rfl⟩) (keyForOSMKey_not_reserved t.key).2
   · intro id nodes tags hc
     simp [featuresOf, hc, modifyOrAdd]
   · intro id members tags ha
@@ -201,28 +205,45 @@ theorem member_id_before_fix_counterexample :
    by rfl, ⟨[⟨.way, 10, "stop"⟩], [⟨"type", "route"⟩], by decide, by decide, by decide⟩,
    ⟨[1, 2, 3, 1], [⟨"building", "yes"⟩], by decide, by decide⟩, by decide, by decide, by decide⟩
 
-/-! ### finding `way-with-point-key` -/
+/-! ### the geometry tags (second fix) -/
 
-/-- For an open way none of whose tags has the mapped key `point`, the path feature is a path as long as
-the way (`Tags.GeometryLen` = number of nodes), so `ValidatePath` sees all its points. -/
-theorem path_geometry_partial (s : Sets) (id : Int64) (nodes : List Int64) (tags : List Tag)
-    (hc : wayClosed? nodes = some false) (hk : pointKeyWay (.way id nodes tags) = false) :
-    ∃ f, featuresOf s (.way id nodes tags) = [f] ∧ geometryLen f.tags = nodes.length := by
-  refine ⟨.generic (pathID id) (modifyOrAdd "path" (.ids (nodes.map pointID)) (mapTags tags)), by simp [featuresOf, hc], ?_⟩
-  have hany : (mapTags tags).any (fun t => t.key = "point") = false := by
-    simp only [pointKeyWay, hc, beq_self_eq_true, Bool.true_and] at hk
-    simpa [mapTags, List.any_map, Function.comp_def] using hk
-  simp only [Feature.tags, geometryLen, modifyOrAdd_any_ne "path" "point" _ _ (by decide), hany,
-    modifyOrAdd_find]
-  simp
+/-- `Tags.GeometryLen` sees what the element is, whatever its OSM tags: 1 for a node's point, the number of
+nodes for a way's path (open or closed) — so `ValidatePath` looks at all the points of every way. -/
+theorem geometry_tags (s : Sets) :
+    (∀ id lat lon tags, ∀ f ∈ featuresOf s (.node id lat lon tags), geometryLen f.tags = 1) ∧
+    (∀ id nodes tags c, wayClosed? nodes = some c →
+      ∃ f rest, featuresOf s (.way id nodes tags) = f :: rest ∧ f.id = pathID id ∧ geometryLen f.tags = nodes.length) := by
+  have hnone : ∀ tags : List Tag, (mapTags tags).any (fun t => t.key = "point") = false := by
+    intro tags
+    simp only [mapTags, List.any_map, List.any_eq_false, Function.comp_apply, decide_eq_true_eq]
+    intro t _
+    exact (keyForOSMKey_not_reserved t.key).1
+  constructor
+  · intro id lat lon tags f hf
+    simp only [featuresOf, List.mem_singleton] at hf
+    subst hf
+    have : (modifyOrAdd "point" (.point lat lon) (mapTags tags)).any (fun t => t.key = "point") = true := by
+      have := modifyOrAdd_find "point" (.point lat lon) (mapTags tags)
+      rw [List.any_eq_true]
+      exact ⟨_, List.mem_of_find?_eq_some this, by simp⟩
+    simp [Feature.tags, geometryLen, this]
+  · intro id nodes tags c hc
+    cases c with
+    | false =>
+      refine ⟨.generic (pathID id) (modifyOrAdd "path" (.ids (nodes.map pointID)) (mapTags tags)), [], by simp [featuresOf, hc], rfl, ?_⟩
+      simp only [Feature.tags, geometryLen, modifyOrAdd_any_ne "path" "point" _ _ (by decide), hnone, modifyOrAdd_find]
+      simp
+    | true =>
+      refine ⟨.generic (pathID id) [⟨"path", .ids (nodes.map pointID)⟩], _, by simp [featuresOf, hc, modifyOrAdd]; rfl, rfl, ?_⟩
+      simp [Feature.tags, geometryLen]
 
-/-- The statement without the hypothesis fails: the open way 18 = [2, 22, 20] tagged `point=` gets a path
-feature whose geometry length is 1, not 3 (the world builder then drops it: fewer than 2 points). -/
-theorem way_point_key_counterexample :
-    ∃ (s : Sets) (id : Int64) (nodes : List Int64) (tags : List Tag) (f : Feature),
-      wayClosed? nodes = some false ∧ pointKeyWay (.way id nodes tags) = true ∧
-      featuresOf s (.way id nodes tags) = [f] ∧ geometryLen f.tags = 1 ∧ nodes.length = 3 :=
-  ⟨{}, 18, [2, 22, 20], [⟨"point", ""⟩], _, by decide, by decide, rfl, by decide, rfl⟩
+/-- Before the fix the key `point` was kept: the open way 18 = [2, 22, 20] tagged `point=` got a path feature
+with a `point` and a `path` tag, geometry length 1 instead of 3 (and the world builder dropped it). -/
+theorem reserved_key_before_fix_counterexample :
+    keyForOSMKeyBeforeFix "point" = "point" ∧ keyForOSMKey "point" = "osm:point" ∧
+    geometryLen (modifyOrAdd "path" (.ids ([2, 22, 20].map pointID)) [⟨keyForOSMKeyBeforeFix "point", .str ""⟩]) = 1 ∧
+    geometryLen (modifyOrAdd "path" (.ids ([2, 22, 20].map pointID)) [⟨keyForOSMKey "point", .str ""⟩]) = 3 := by
+  decide
 
 /-! Non-vacuity: an input with every kind of element; it is defined, and the relation's members are the
 point, the area of the closed way, the path of the open way and the area of the multipolygon. -/
